@@ -2,7 +2,7 @@
 # Usage: tools/try_seed.sh <patch.diff> <Cnn> [quick|thorough]
 # Applies a seeded change to /repo's working tree, runs the check, and restores the tree.
 set -u
-PATCH="$1"; ID="$2"; TIER="${3:-quick}"
+PATCH="$(realpath "$1")"; ID="$2"; TIER="${3:-quick}"
 cd /verif
 if [ -n "$(git -C /repo status --porcelain --untracked-files=no)" ]; then echo "/repo not clean"; exit 3; fi
 git -C /repo apply "$PATCH" || { echo "patch does not apply"; exit 3; }
